@@ -40,3 +40,15 @@ Theorem C01_empty_path_iff_empty_text :
   forall c, path_ok_b c [] = true <-> c = [].
 Proof. exact empty_path_iff_empty_text. Qed.
 Print Assumptions C01_empty_path_iff_empty_text.
+
+(* "every input that tokenization accepts": the guards read from the source (original longer than MAX_LENGTH rejected,
+   resolve_edits leaves early once the running length exceeds REALLY_MAX_LENGTH, both limits <= 65535) keep the rewritten
+   text, hence every byte and character offset of a node, within u16: the `as u16` casts of resolve_best_path,
+   NodeSplitIterator and Node::new are the identity on every reachable state *)
+Fact C01_guards_ok : guards_ok the_cfg = true.
+Proof. vm_compute. reflexivity. Qed.
+
+Theorem C01_offsets_fit_u16 :
+  forall o s, wf_text o = true -> Reach the_cfg o s -> (N.of_nat (length (cur s)) <= 65535)%N.
+Proof. exact (fun o s => reach_len_u16 the_cfg C01_facts_ok o s C01_guards_ok). Qed.
+Print Assumptions C01_offsets_fit_u16.
